@@ -296,6 +296,17 @@ package dkg
 //@ func (*Process).Command(d, ctx, command) (res, err)
 //@   props C08 C14
 //@   flags lockcheck
+// a command's read-modify-write of the DKG record is atomic against packets and other commands: every access to the
+// store happens while the process lock is held
+//@   call GetCurrent#0: assert [C08:command-reads-the-record-under-the-process-lock] held(d.lock)
+//@   call GetFinished#0: assert [C08:command-reads-the-finished-record-under-the-process-lock] held(d.lock)
+//@   call StartNetwork#0: assert [C08:command-applies-and-saves-under-the-process-lock] held(d.lock)
+//@   call StartProposal#0: assert [C08:command-applies-and-saves-under-the-process-lock] held(d.lock)
+//@   call StartJoin#0: assert [C08:command-applies-and-saves-under-the-process-lock] held(d.lock)
+//@   call StartAccept#0: assert [C08:command-applies-and-saves-under-the-process-lock] held(d.lock)
+//@   call StartReject#0: assert [C08:command-applies-and-saves-under-the-process-lock] held(d.lock)
+//@   call StartExecute#0: assert [C08:command-applies-and-saves-under-the-process-lock] held(d.lock)
+//@   call StartAbort#0: assert [C08:command-applies-and-saves-under-the-process-lock] held(d.lock)
 //@   call StartNetwork#0: assert [C08:command-initial-applies-to-fallback-state] fallbackState(d, command.Metadata.BeaconID, arg4) && nSaves(d.store) == old(nSaves(d.store))
 //@   call StartProposal#0: assert [C08:command-reshare-applies-to-fallback-state] fallbackState(d, command.Metadata.BeaconID, arg4) && nSaves(d.store) == old(nSaves(d.store))
 //@   call StartJoin#0: assert [C08:command-join-applies-to-fallback-state] fallbackState(d, command.Metadata.BeaconID, arg4)
@@ -348,6 +359,8 @@ package dkg
 // the two participant lists of decoded terms are separate arrays (append(terms.Remaining, terms.Leaving...) may write
 // into the spare capacity of Remaining's array; with overlapping arrays that would change what Leaving shows)
 //@   requires len(terms.Leaving) > 0 ==> ref(terms.Remaining) != ref(terms.Leaving)
+//@   ensures [C08:membership-check-leaves-the-terms-alone] terms.BeaconID == old(terms.BeaconID) && terms.Epoch == old(terms.Epoch) && terms.SchemeID == old(terms.SchemeID) && terms.Threshold == old(terms.Threshold) && terms.GenesisSeed == old(terms.GenesisSeed) && terms.Leader == old(terms.Leader) && terms.Remaining == old(terms.Remaining) && terms.Joining == old(terms.Joining) && terms.Leaving == old(terms.Leaving)
+//@   ensures [C08:membership-check-leaves-the-record-alone] sameRecord(currentState)
 //@   loop 0: invariant [C08,C09:node-scan-position-in-range] -1 <= rangeindex0 && rangeindex0 < len(currentState.FinalGroup.Nodes)
 //@   loop 0: invariant [C08,C09:last-epoch-list-is-new-and-sized-like-the-group] isnew(lastEpochParticipants) && len(lastEpochParticipants) == len(currentState.FinalGroup.Nodes)
 //@   loop 0: invariant [C08,C09:last-epoch-participants-mirror-the-recorded-group] nodeRecorded(lastEpochParticipants, currentState.FinalGroup.Nodes, rangeindex0 + 1)
@@ -437,3 +450,76 @@ package dkg
 //@   props C20
 //@   ensures [C20:dkg-record-decoding-carries-every-field] err == nil ==> res != nil && fieldwise(res, d, "Timeout,GenesisTime,TransitionTime,FinalGroup,KeyShare")
 //@   ensures [C20:dkg-record-decoding-keeps-group-and-share-presence] err == nil ==> (res.FinalGroup != nil) == (d.FinalGroup != nil) && (res.KeyShare != nil) == (d.KeyShare != nil)
+
+// ---- C08 / C09: proposal validation and the two proposal mutators -----------------------------------------------------------
+// epochRule: what validateEpoch establishes; thresholdInRange: security threshold bounds over remaining + joining nodes
+//@ pred epochRule(cur, terms) := terms.Epoch >= cur.Epoch && (terms.Epoch == cur.Epoch ==> terminal(cur.State)) && (terms.Epoch > cur.Epoch + 1 ==> cur.State == Left || cur.State == Fresh)
+//@ pred thresholdInRange(terms) := terms.Threshold <= len(terms.Joining) + len(terms.Remaining) && terms.Threshold >= (len(terms.Joining) + len(terms.Remaining)) / 2 + 1
+
+//@ extern (*github.com/drand/drand/v2/common/key.Identity).ValidSignature(i) (err)
+//@   trusted self-signature check of an identity (kyber scheme verification, assumed sound)
+//@   modifies nothing
+//@   ensures err == nil ==> selfSigned(i)
+// selfSigned(id): the identity carries a valid signature of its own key; joinerChecked(p): participant p decoded to a self-signed identity
+//@ ghost selfSigned(ref) bool
+//@ ghost joinerChecked(ref) bool
+
+//@ func validateJoinerSignatures(terms, targetSch) (err)
+//@   props C09 C08
+//@   requires terms != nil && targetSch != nil
+//@   modifies nothing
+//@   call ValidSignature#0: assert [C09:the-identity-checked-is-the-joiner-decoded-under-the-proposal-scheme] id != nil && id.Scheme == targetSch && participant == terms.Joining[rangeindex0 + 1]
+//@   loop 0: invariant [C09:joiner-scan-position] -1 <= rangeindex0 && rangeindex0 < len(terms.Joining)
+
+//@ func validateForAllDKGs(currentState, terms) (err)
+//@   props C08
+//@   requires currentState != nil
+//@   modifies nothing
+//@   ensures [C08:missing-terms-rejected] terms == nil ==> err != nil
+//@   ensures [C08:accepted-terms-name-this-beacon-a-known-scheme-and-a-threshold-in-range] err == nil ==> terms != nil && currentState.BeaconID == terms.BeaconID && crypto.knownScheme(terms.SchemeID) && thresholdInRange(terms) && epochRule(currentState, terms)
+
+//@ func validateFirstEpoch(terms) (err)
+//@   props C08
+//@   requires terms != nil
+//@   modifies nothing
+//@   ensures [C08:first-epoch-has-only-joiners-no-seed-and-enough-nodes] err == nil ==> len(terms.GenesisSeed) == 0 && terms.Remaining == nil && terms.Leaving == nil && len(terms.Joining) >= terms.Threshold
+
+//@ func validateReshareTerms(currentState, terms) (err)
+//@   props C08
+//@   requires terms != nil && currentState != nil
+//@   modifies nothing
+//@   ensures [C08:reshare-keeps-at-least-the-old-threshold-of-remaining-nodes] err == nil ==> len(terms.Remaining) > 0 && len(terms.Remaining) >= currentState.Threshold
+
+// wfForReshare: a record that is not Fresh and is offered a reshare proposal carries its last group (data invariant of the
+// DKG store: the record passed is the last finished one or Fresh, see Command / applyPacketToState); the decoded
+// participant lists are separate arrays (same assumption as validateReshareForRemainers)
+//@ pred wfForReshare(cur, terms) := (cur.State != Fresh && terms != nil && terms.Epoch != 1 ==> cur.FinalGroup != nil) && (terms != nil && len(terms.Leaving) > 0 ==> ref(terms.Remaining) != ref(terms.Leaving))
+//@ func ValidateProposal(currentState, terms) (err)
+//@   props C08
+//@   requires currentState != nil
+//@   requires [C08] wfForReshare(currentState, terms)
+//@   ensures [C08:validation-leaves-the-terms-alone] terms != nil ==> terms.BeaconID == old(terms.BeaconID) && terms.Epoch == old(terms.Epoch) && terms.SchemeID == old(terms.SchemeID) && terms.Threshold == old(terms.Threshold) && terms.GenesisSeed == old(terms.GenesisSeed) && terms.Leader == old(terms.Leader) && terms.Remaining == old(terms.Remaining) && terms.Joining == old(terms.Joining) && terms.Leaving == old(terms.Leaving)
+//@   ensures [C08:validation-leaves-the-record-alone] sameRecord(currentState)
+//@   ensures [C08:accepted-proposal-passed-the-common-checks] err == nil ==> terms != nil && currentState.BeaconID == terms.BeaconID && crypto.knownScheme(terms.SchemeID) && thresholdInRange(terms) && epochRule(currentState, terms)
+//@   ensures [C08:accepted-first-epoch-proposal-has-only-joiners] err == nil && terms.Epoch == 1 ==> len(terms.GenesisSeed) == 0 && terms.Remaining == nil && terms.Leaving == nil
+//@   ensures [C08:accepted-reshare-keeps-the-old-threshold-of-remaining-nodes] err == nil && terms.Epoch != 1 ==> len(terms.Remaining) > 0 && len(terms.Remaining) >= currentState.Threshold
+//@   call validateReshareForRemainers#0: assert [C08,C09:members-of-the-group-always-run-the-membership-and-key-check] currentState.State != Fresh
+
+//@ func (*DBState).Proposed(d, me, terms, metadata) (res, err)
+//@   props C08 C09
+//@   requires metadata != nil
+//@   requires [C08] wfForReshare(d, terms)
+//@   ensures [C09:only-the-leader-named-in-the-terms-proposes] err == nil ==> old(terms != nil && terms.Leader != nil && metadata.Address == terms.Leader.Address)
+//@   ensures [C08:Proposed-legal] err == nil ==> res != nil && isnew(res) && res.State == Proposed && legal(d.State, Proposed) && res.BeaconID == d.BeaconID && res.Epoch == terms.Epoch && epochRule(d, terms) && thresholdInRange(terms)
+//@   ensures [C08:Proposed-takes-the-terms] err == nil ==> res.Threshold == terms.Threshold && res.SchemeID == terms.SchemeID && res.GenesisSeed == terms.GenesisSeed && res.Leader == terms.Leader && res.FinalGroup == nil && res.KeyShare == nil
+//@   ensures [C08:Proposed-error-returns-nothing] err != nil ==> res == nil
+//@   ensures [C08:Proposed-leaves-the-current-record-alone] sameRecord(d)
+
+//@ func (*DBState).Proposing(d, me, terms) (res, err)
+//@   props C08 C09
+//@   requires [C08] wfForReshare(d, terms)
+//@   ensures [C09:only-the-leader-itself-starts-a-proposal] err == nil ==> terms != nil && terms.Leader == me
+//@   ensures [C08:Proposing-legal] err == nil ==> res != nil && isnew(res) && res.State == Proposing && legal(d.State, Proposing) && res.BeaconID == d.BeaconID && res.Epoch == terms.Epoch && epochRule(d, terms) && thresholdInRange(terms) && (d.State == Fresh ==> terms.Epoch <= 1)
+//@   ensures [C08:Proposing-keeps-the-genesis-seed-of-the-current-record] err == nil ==> res.GenesisSeed == d.GenesisSeed && res.Threshold == terms.Threshold && res.FinalGroup == nil && res.KeyShare == nil
+//@   ensures [C08:Proposing-error-returns-nothing] err != nil ==> res == nil
+//@   ensures [C08:Proposing-leaves-the-current-record-alone] sameRecord(d)
